@@ -480,6 +480,11 @@ def run(ctx: Ctx) -> None:
                    "LIMIT = 2 in one accepted module and LIMIT = 3 in another: the second function is keyed with the hash of the first value; changing its LIMIT changes no signature")
         rep.floor("C05.R17", n17, 3)
     if rep.prop == "C05":
+        rep.rule("C05.R18", "as C03.R9: hashing a supported value ends with a signature - the abstract evaluation of the value hasher on a table of values (non-ASCII text among them) gives "
+                            "the pinned bytes, never a low-level exception")
+        n18 = pinned_preimages(ctx, "C05.R18")
+        rep.floor("C05.R18", n18, 25)
+    if rep.prop == "C05":
         rep.rule("C05.R16", "two values that differ other than by the documented identifications get different signatures: the pre-images of an integer, a float and None are not "
                             "the pre-image of a string (abstract evaluation of the value hasher on pairs of values of different types)")
         n16 = cross_type_distinct(ctx, "C05.R16")
@@ -869,6 +874,9 @@ def abstract_preimage(ctx: Ctx, val: Any) -> Tuple[Optional[bytes], str]:
     pres = {o.value.pre.v for o in rets if isinstance(o.value, Digest) and isinstance(o.value.pre, Const) and isinstance(o.value.pre.v, (bytes, bytearray))}
     if len(pres) == 1 and len(rets) == len(outs) and all(isinstance(o.value, Digest) and isinstance(o.value.pre, Const) for o in rets):
         return bytes(next(iter(pres))), ""
+    low = [o for o in outs if o.kind == "raise" and o.exc is not None and not str(getattr(o.exc, "exc_type", "")).endswith("DDSException")]
+    if low and len(low) == len(outs):
+        return None, f"raises {getattr(low[0].exc, 'exc_type', '?')}: {str(low[0].exc)[:120]}"
     return None, f"outcomes {[repr(o.value) if o.kind == 'return' else str(o.exc) for o in outs][:3]}"
 
 
@@ -885,6 +893,10 @@ def pinned_preimages(ctx: Ctx, rule: str) -> int:
         if want is None:
             continue
         got, why = abstract_preimage(ctx, val)
+        if got is None and why.startswith("raises "):
+            n += 1
+            bad.append(f"dds_hash({label}) ends in a low-level exception: {why[7:]}")
+            continue
         if got is None:
             und.append(f"dds_hash({label}): {why}")
             continue
